@@ -644,6 +644,115 @@ func c18directed(impl c18impl, res *core.CaseResult) {
 			}
 		}
 	}
+	// (c) a handler that makes k further calls on its transaction and THEN fails: the failure is the error of the handler's own
+	// operation, wherever that operation stands in the transaction and however many results the nested calls added
+	for pos := 0; pos < 4; pos++ {
+		for nested := 0; nested <= 5; nested++ {
+			for _, set := range []bool{false, true} {
+				_, open := impl.open()
+				txn, err := open(keyvalue.TransactionOptions{Mode: keyvalue.TransactionReadWrite})
+				if err != nil {
+					viol("nested-then-error|Transaction", "error", "ok", err.Error())
+					return
+				}
+				failing := keyvalue.OpHandlerFunc(func(t keyvalue.Transaction, r keyvalue.OpResult) error {
+					for i := 0; i < nested; i++ {
+						t.Get("x")
+					}
+					return errHandler
+				})
+				var outer keyvalue.OpID
+				var results []keyvalue.OpResult
+				var cerr error
+				p := core.Recover(func() {
+					for i := 0; i < pos; i++ {
+						txn.Get("x")
+					}
+					if set {
+						outer = txn.SetHandler("w", recordOf("w"), blob.NewBytes([]byte("w")), failing)
+					} else {
+						outer = txn.GetHandler("x", failing)
+					}
+					results, cerr = txn.Commit(context.Background())
+				})
+				res.Count("nested_then_error_programs", 1)
+				what := fmt.Sprintf("a handler (call #%d of its transaction, SetHandler=%v) made %d Get calls on the transaction and then returned an error", pos+1, set, nested)
+				if p != "" {
+					viol("nested-then-error", "panic", "returns", what+": panic "+p)
+					continue
+				}
+				reported := cerr != nil
+				for _, r := range results {
+					if r.Op == outer && r.Err != nil {
+						reported = true
+					}
+				}
+				if !reported {
+					viol("nested-then-error|handler-error", "lost", "that-operation's-error", what+": Commit returned no error and the operation's result carries none")
+				}
+				_ = fresh(open, "nested-then-error", "x")
+			}
+		}
+	}
+	// (d) a Set whose source record cannot deliver its contents, on a key that holds a committed record: whether the call's
+	// result or Commit reports it, a Set that failed has set nothing - later Gets (same and next transaction) see the old record
+	for variant := 0; variant < 2; variant++ {
+		_, open := impl.open()
+		t1, err := open(keyvalue.TransactionOptions{Mode: keyvalue.TransactionReadWrite})
+		if err != nil {
+			viol("unreadable-source|Transaction", "error", "ok", err.Error())
+			return
+		}
+		t1.Set("x", recordOf("old"), blob.NewBytes([]byte("old")))
+		if _, err := t1.Commit(context.Background()); err != nil {
+			viol("unreadable-source|Commit", "error", "ok", err.Error())
+			continue
+		}
+		unreadable := keyvalue.NewBaseFileRecord(3, time.Unix(1, 0), 0o644, nil, func() (blob.Blob, error) { return nil, errStoreFault }, nil)
+		var results []keyvalue.OpResult
+		var cerr error
+		var setID, getID keyvalue.OpID
+		p := core.Recover(func() {
+			t2, err := open(keyvalue.TransactionOptions{Mode: keyvalue.TransactionReadWrite})
+			if err != nil {
+				cerr = err
+				return
+			}
+			if variant == 0 {
+				setID = t2.Set("x", unreadable, nil)
+			} else {
+				setID = t2.SetHandler("x", unreadable, nil, keyvalue.OpHandlerFunc(func(keyvalue.Transaction, keyvalue.OpResult) error { return nil }))
+			}
+			getID = t2.Get("x")
+			results, cerr = t2.Commit(context.Background())
+		})
+		res.Count("sets_from_unreadable_records", 1)
+		if p != "" {
+			viol("unreadable-source", "panic", "returns", "Set from a record whose Data() fails panicked: "+p)
+			continue
+		}
+		failed := cerr != nil
+		for _, r := range results {
+			if r.Op == setID && r.Err != nil {
+				failed = true
+			}
+		}
+		if !failed {
+			continue // (a store that does not need the contents at Set time: nothing to say here)
+		}
+		for _, r := range results {
+			if r.Op == getID && cerr == nil {
+				if v, err := recordValue(r.Record); r.Err != nil || err != nil || v != "old" {
+					viol("unreadable-source|get-in-same-transaction", "other", "the-committed-record", fmt.Sprintf("x held \"old\"; a Set of x from a record whose Data() fails was reported as failed, and the Get of x that followed it in the transaction answers %q (%v %v)", v, r.Err, err))
+				}
+			}
+		}
+		if out := fresh(open, "unreadable-source", "x"); out != nil {
+			if v, err := recordValue(out[0].Record); out[0].Err != nil || err != nil || v != "old" {
+				viol("unreadable-source|final-state", "other", "the-committed-record", fmt.Sprintf("x held \"old\"; a Set of x from a record whose Data() fails was reported as failed, and afterwards x = %q (%v %v)", v, out[0].Err, err))
+			}
+		}
+	}
 	// (b) Commit with a cancelled context, then (second variant) an Abort on top
 	for variant := 0; variant < 2; variant++ {
 		_, open := impl.open()
